@@ -11,6 +11,7 @@ that are `pub` (settable from outside the crate) get their type range.
 import re
 
 from mirlib import *
+from mirlib import _ref_target
 
 INT_RANGES = {
     "u8": (0, 2**8 - 1), "u16": (0, 2**16 - 1), "u32": (0, 2**32 - 1), "u64": (0, 2**64 - 1), "u128": (0, 2**128 - 1), "usize": (0, 2**64 - 1),
@@ -97,6 +98,14 @@ class Intervals:
                 break
             rv = ds[0][1]
             src = op_place(rv["op"]) if rv["k"] == "use" else (rv["place"] if rv["k"] == "ref" else None)
+            if src is not None and not src["proj"] and rv["k"] == "ref" and pl["proj"] and pl["proj"][0]["k"] == "deref":
+                # (*r) with r = &x, x assigned once: stands for x (match guards bind `size if *size > K` this way)
+                x = self.root(fn, src["local"])
+                xd = fn.defs().get(src["local"], [])
+                if len(xd) <= 1 and not any(d[4]["proj"] for d in fn.defs().get(x, [])):
+                    pl = {"local": src["local"], "proj": list(pl["proj"][1:])}
+                    continue
+                break
             if src is None or not src["proj"]:
                 break
             if any(e["k"] not in ("deref", "field", "downcast") for e in src["proj"]):
@@ -323,6 +332,13 @@ class Intervals:
 
     def _projected(self, fn, pl, block, depth, seen):
         last = pl["proj"][-1]
+        # (*r) with r a reference to a local that was captured by an inlined closure / re-borrowed: the local itself
+        if len(pl["proj"]) == 1 and last["k"] == "deref" and depth < 12:
+            tgt = _ref_target(fn, pl["local"])
+            if tgt is not None and tgt["local"] != pl["local"] and all(e["k"] in ("deref", "field") for e in tgt["proj"]):
+                ds_t = fn.defs().get(tgt["local"], [])
+                if not tgt["proj"] and len(ds_t) <= 1:
+                    return self.place(fn, tgt, block, depth + 1, seen)
         # checked arithmetic result tuple: (_t.0)
         if last["k"] == "field" and len([e for e in pl["proj"] if e["k"] != "deref"]) == 1 and last.get("adt") in ("tuple", ""):
             ds = fn.whole_defs(pl["local"])
@@ -1011,8 +1027,11 @@ class Intervals:
                     v = self.call(f, payload, bi, 1, frozenset())
                 out = v if first else join(out, v)
                 first = False
-            if field_mut_borrows(f, adt, field):
-                unknown = True
+            for b_bi, b_si, b_st in field_mut_borrows(f, adt, field):
+                lastp = b_st["rv"]["place"]["proj"][-1] if b_st["rv"]["place"]["proj"] else None
+                whole = lastp is not None and lastp["k"] == "field" and lastp["name"] == field
+                if not (whole and not b_st["place"]["proj"] and not borrow_escapes(f, b_st["place"]["local"])):
+                    unknown = True
         self._field_busy.discard(key)
         res = base if (first or unknown or out is None) else meet(base, out)
         self._field_cache[key] = res
